@@ -26,6 +26,7 @@ EXPLANATION = (
     "retransmission are immutable copies; R8 every response (initiate, block acknowledge, end) is validated before its "
     "bytes are used and a wrong one aborts and raises (the validate-before-use clause shared with C07.R3); R9 structural assumptions shared by all properties: no class-level mutable object is mutated in place by instances, no method re-runs the constructor, logging statements cannot raise (typed eager formatting, divisions), no mutable default argument is kept or mutated, no new truth-value test of a None-able number, a look-up memory the pinned tree does not have is keyed by all its inputs (arithmetic keys folded over a grid of addresses) and, on the serving side, emptied somewhere."
     ' R4 also: the block acknowledge is awaited at the end of every block, resent ones included; R5 also: every legal acknowledge (ackseq 0..sent, next size 1..127) passes the validations; R6 takes the initial CRC from the constructor defaults.'
+    ' R6 also: CrcXmodem.final() is a pure read when a stream class asks for it more than once per transfer (shared with C13.R5).'
 )
 ASSUMPTIONS = [
     "not decided: retransmission outcomes under arbitrary loss patterns; the server is assumed standard-conformant",
